@@ -191,7 +191,7 @@ def run_exp_chunk(specs: list[dict]) -> list[dict]:
 
 
 def gen_exp_spec(rng: np.random.Generator, seed: int) -> dict:
-    cls = str(rng.choice(["herm", "nonherm", "lindblad", "rydberg"], p=[0.35, 0.25, 0.25, 0.15]))
+    cls = str(rng.choice(["herm", "nonherm", "lindblad", "rydberg", "chain"], p=[0.3, 0.22, 0.23, 0.15, 0.1]))
     spec: dict[str, Any] = {"fn": "exp", "cls": cls, "seed": int(seed), "cplx": bool(rng.random() < 0.8),
                             "spectrum": str(rng.choice(kr.SPECTRA))}
     if cls == "lindblad":
@@ -202,6 +202,10 @@ def gen_exp_spec(rng: np.random.Generator, seed: int) -> dict:
     elif cls == "rydberg":
         spec["dim"] = 2 ** int(rng.integers(1, 9))
         spec["scale"] = float(10 ** rng.uniform(-3.3, -1.3))             # dt in us
+    elif cls == "chain":
+        spec["dim"] = int(rng.integers(2, 9))
+        spec["scale"] = float(10 ** rng.uniform(-2, 1.5))
+        spec["spectrum"] = "chain"
     else:
         spec["dim"] = int(rng.choice([1, 2, 3, 4, 6, 8, 16, 32, 64, 128, 256], p=[.04, .1, .1, .1, .1, .12, .14, .12, .08, .06, .04]))
         spec["scale"] = float(10 ** rng.uniform(-3, 1.75))
@@ -211,7 +215,7 @@ def gen_exp_spec(rng: np.random.Generator, seed: int) -> dict:
     # norm_tolerance: equal to exp_tolerance (what emu-sv / emu-mps pass) or below it
     spec["ntol"] = tol if rng.random() < 0.5 else float(max(1e-14, tol * 10 ** rng.uniform(-4, 0)))
     spec["maxdim"] = int(rng.choice([1, 2, 3, 4, 6, 8, 12, 20, 40, 100], p=[.05, .05, .05, .05, .08, .1, .12, .15, .15, .2]))
-    spec["herm_flag"] = bool(cls in ("herm", "rydberg") and rng.random() < 0.8)
+    spec["herm_flag"] = bool(cls in ("herm", "rydberg", "chain") and rng.random() < 0.8)
     spec["api"] = "impl" if rng.random() < 0.6 else "public"
     u = rng.random()
     if u < 0.5:
@@ -228,6 +232,9 @@ def gen_exp_spec(rng: np.random.Generator, seed: int) -> dict:
         spec["basis_random"] = bool(rng.random() < 0.5)
     else:
         spec["vkind"] = "zero"
+    if cls == "chain":
+        spec["vkind"] = "basis"
+        spec["basis_random"] = bool(rng.random() < 0.3)
     spec["vnorm"] = 1.0 if rng.random() < 0.5 else float(10 ** rng.uniform(-3, 3))
     spec["shape"] = str(rng.choice(["flat", "matrix", "split", "mps"]))
     return spec
@@ -430,7 +437,7 @@ def sweep_min(task: dict) -> list[dict]:
         for t in np.logspace(-12, 0.3, ngrid):                      # convergence sweep
             r = run_min(dict(sp, tol=float(t), ntol=1e-14))
             seen.setdefault(r["path"], r)
-        for t in np.logspace(-12, 0.3, ngrid):                      # breakdown sweep (residual test switched off)
+        for t in np.logspace(-12, -0.05, ngrid):                    # breakdown sweep (residual test switched off); norm_tolerance < |v| = 1
             r = run_min(dict(sp, tol=0.0, ntol=float(t)))
             seen.setdefault(r["path"], r)
         out += list(seen.values())
@@ -505,12 +512,16 @@ def judge(ctx: Ctx, prefix: str, results: list[dict], name: str, strict: bool = 
     traces = [{"id": i + 1, "events": r["events"]} for i, r in enumerate(results)]
     verdicts = validate_batch(ctx, "KrylovTrace", traces, name)
     nviol = 0
-    ok_ids = []
-    for i, r in enumerate(results):
+    ok_ids = [i for i in range(len(results)) if verdicts[i + 1][0] == "ACCEPT"]
+
+    def badness(i: int) -> float:
+        a = results[i].get("atom") or {}
+        return -float(a.get("ratio") or max(a.get("m_ray") or 0, a.get("m_var") or 0, a.get("m_res") or 0, a.get("m_unit") or 0) or 0)
+
+    # worst case of every kind first: the replay file kept per key is the most telling one
+    for i in sorted((i for i in range(len(results)) if verdicts[i + 1][0] != "ACCEPT"), key=badness):
+        r = results[i]
         v = verdicts[i + 1]
-        if v[0] == "ACCEPT":
-            ok_ids.append(i)
-            continue
         clause = v[2]
         if not clause.startswith("req:"):
             raise MachineryError(f"trace {i + 1} of {name} malformed: {v} spec={r['spec']}")
@@ -520,9 +531,9 @@ def judge(ctx: Ctx, prefix: str, results: list[dict], name: str, strict: bool = 
         if r.get("rec"):
             it = r["rec"]["iters"]
             where = ":" + (r.get("kind") or "?") + ("@1" if it == 1 else "@>1")
-        key = f"{prefix}:{clause[4:]}:{cls}{where}" + (f":{r['exc']}" if r.get("exc") and "raise" in clause else "")
+        key = f"{prefix}:{clause[4:]}{where}" + (f":{r['exc']}" if r.get("exc") and "raise" in clause else "")
         nviol += 1
-        ctx.violation(key, f"{name}: real execution rejected by KrylovTrace at event {v[1]}: {clause}",
+        ctx.violation(key, f"{name}: real execution ({cls}, dim {r.get('dim')}) rejected by KrylovTrace at event {v[1]}: {clause}",
                       {"spec": r["spec"], "record": r.get("rec"), "exception": r.get("exc"), "atom": r.get("atom"),
                        "op_calls": r.get("nops"), "how": f"./check {ctx.pid} --replay <this file>"})
     ndrift = 0
